@@ -845,7 +845,7 @@ theorem demoBook_WF (e : SaveEnv) (he : ∀ c ∈ demoSheet1.comments, c.author 
   · refine ⟨?_, by decide⟩
     intro x hx
     simp only [demoBook, List.mem_singleton] at hx; subst hx
-    refine ⟨fun ρ hρ => ?_, by simp, by simp, ?_⟩
+    refine ⟨fun ρ hρ => ?_, by simp, ?_⟩
     · simp only [List.mem_singleton] at hρ; subst hρ
       exact ⟨Or.inl (by simp), by refine ⟨?_, ?_, ?_, ?_⟩ <;> intro x hx <;> first | (injection hx with hx; subst hx; simp) | cases hx⟩
     · intro r hr
